@@ -712,4 +712,317 @@ theorem vose_correct_tableOk (p : List Rat) (hne : p ≠ []) (hnn : ∀ x ∈ p,
   rw [h4 j hj, sub_self]
   simp [absQ]
 
+/-! ## (F) inputs whose sum is only approximately one: the error is bounded by the slack -/
+
+/-- what an unassigned entry is short of (or above) `avg` at exit; 0 for assigned entries -/
+def vf_T (n : Nat) (avg : Rat) (st : Vose) (i : Nat) : Rat :=
+  if al st i = n then avg - pr st i else 0
+
+/-- the table's mass is the input plus the exit residue of that index (needs no exit condition) -/
+theorem vf_mass_eq (p : List Rat) (avg : Rat) (hlen : 0 < p.length)
+    (havg : (p.length : Rat) * avg = 1) (hn : vf_Inv p p.length avg (vf_exit p avg)) :
+    ∀ j, j < p.length →
+      aliasMass (voseBuildFixed p avg).1 (voseBuildFixed p avg).2 j =
+        p.getD j 0 + vf_T p.length avg (vf_exit p avg) j := by
+  intro j hj
+  have hnq : (0 : Rat) < (p.length : Rat) := by exact_mod_cast hlen
+  have hn0 : (p.length : Rat) ≠ 0 := ne_of_gt hnq
+  have hn1 : (1 : Rat) ≤ (p.length : Rat) := by exact_mod_cast hlen
+  rw [vf_build_eq]
+  generalize vf_exit p avg = st at hn
+  unfold aliasMass
+  simp only [List.map_map, List.length_map, List.length_range]
+  rw [vf_sum_range_map]
+  have hterm : ∀ i ∈ Finset.range p.length,
+      ((if i = j then clamp01 (((List.range p.length).map
+          ((fun x => x * (p.length : Rat)) ∘
+            fun x => if (al st x == p.length) = true then 1 else pr st x)).getD i 0) else 0) +
+       (if ((List.range p.length).map
+          (fun x => if (al st x == p.length) = true then x else al st x)).getD i 0 = j
+        then 1 - clamp01 (((List.range p.length).map
+          ((fun x => x * (p.length : Rat)) ∘
+            fun x => if (al st x == p.length) = true then 1 else pr st x)).getD i 0) else 0)) =
+      ((if i = j then pr st i else 0) + (if al st i = j then avg - pr st i else 0) +
+        (if i = j then vf_T p.length avg st i else 0)) * (p.length : Rat) := by
+    intro i hi
+    have hi' := Finset.mem_range.mp hi
+    rw [vf_getD_range_map _ _ _ _ hi', vf_getD_range_map _ _ _ _ hi']
+    simp only [Function.comp_apply, beq_iff_eq, vf_T]
+    by_cases ha : al st i = p.length
+    · rw [if_pos ha, if_pos ha, if_pos ha, vf_clamp_ge _ (by linarith), ha,
+        if_neg (by omega : ¬ p.length = j)]
+      split_ifs <;> linarith
+    · obtain ⟨_, hlt⟩ := hn.i2 i hi' ha
+      have h0 := hn.i0 i hi'
+      have hm0 : 0 ≤ pr st i * (p.length : Rat) := mul_nonneg h0 (le_of_lt hnq)
+      have hm1 : pr st i * (p.length : Rat) ≤ 1 := by
+        have := mul_le_mul_of_nonneg_right (le_of_lt hlt) (le_of_lt hnq)
+        linarith
+      rw [if_neg ha, if_neg ha, if_neg ha, vf_clamp_id _ hm0 hm1]
+      split_ifs <;> linarith
+  rw [Finset.sum_congr rfl hterm, ← Finset.sum_mul, Finset.sum_add_distrib,
+    Finset.sum_add_distrib, Finset.sum_ite_eq', Finset.sum_ite_eq',
+    if_pos (Finset.mem_range.mpr hj), if_pos (Finset.mem_range.mpr hj), ← hn.i1 j hj,
+    mul_div_assoc, div_self hn0, mul_one]
+
+/-- at exit the residues sum to the slack `1 - Σp` and all have one sign -/
+theorem vf_exit_T (p : List Rat) (avg : Rat) (st : Vose)
+    (hn : vf_Inv p p.length avg st)
+    (hex : ¬ (st.small < p.length ∧ st.large < p.length))
+    (havg : (p.length : Rat) * avg = 1) :
+    ∑ i ∈ Finset.range p.length, vf_T p.length avg st i = 1 - p.sum ∧
+    ((∀ i ∈ Finset.range p.length, 0 ≤ vf_T p.length avg st i) ∨
+     (∀ i ∈ Finset.range p.length, vf_T p.length avg st i ≤ 0)) := by
+  have hS : ∑ j ∈ Finset.range p.length, p.getD j 0 = p.sum := (vf_sum_getD p).symm
+  have h1 : ∑ j ∈ Finset.range p.length, p.getD j 0 =
+      ∑ j ∈ Finset.range p.length, pr st j +
+        ∑ j ∈ Finset.range p.length, ∑ i ∈ Finset.range p.length,
+          (if al st i = j then avg - pr st i else 0) := by
+    rw [← Finset.sum_add_distrib]
+    exact Finset.sum_congr rfl (fun j hj => hn.i1 j (Finset.mem_range.mp hj))
+  rw [Finset.sum_comm] at h1
+  have h2 : ∀ i ∈ Finset.range p.length,
+      ∑ j ∈ Finset.range p.length, (if al st i = j then avg - pr st i else 0) =
+        if al st i = p.length then 0 else avg - pr st i := by
+    intro i hi
+    rw [Finset.sum_ite_eq]
+    by_cases h : al st i = p.length
+    · rw [if_pos h, h, if_neg Finset.notMem_range_self]
+    · rw [if_neg h, if_pos (Finset.mem_range.mpr (hn.i2 i (Finset.mem_range.mp hi) h).1)]
+  rw [Finset.sum_congr rfl h2, hS] at h1
+  refine ⟨?_, ?_⟩
+  · have : ∀ i ∈ Finset.range p.length, vf_T p.length avg st i =
+        avg - pr st i - (if al st i = p.length then 0 else avg - pr st i) := by
+      intro i _
+      unfold vf_T
+      split <;> ring
+    rw [Finset.sum_congr rfl this, Finset.sum_sub_distrib, Finset.sum_sub_distrib,
+      Finset.sum_const, Finset.card_range, nsmul_eq_mul, havg]
+    linarith
+  · by_cases hl : st.large < p.length
+    · right
+      have hs : p.length ≤ st.small := by omega
+      have hc := hn.b9 hs
+      intro i hi
+      have hi' := Finset.mem_range.mp hi
+      unfold vf_T
+      split
+      · rename_i ha
+        by_contra hcon
+        have hlt : pr st i < avg := by linarith
+        rcases hn.i5 i hi' ha hlt with h | h <;> omega
+      · exact le_refl _
+    · left
+      intro i hi
+      have hi' := Finset.mem_range.mp hi
+      unfold vf_T
+      split
+      · have := hn.i4 i (by omega) hi'
+        linarith
+      · exact le_refl _
+
+theorem vf_abs_single (n : Nat) (f : Nat → Rat) (j : Nat) (hj : j < n)
+    (h : (∀ i ∈ Finset.range n, 0 ≤ f i) ∨ (∀ i ∈ Finset.range n, f i ≤ 0)) :
+    absQ (f j) ≤ absQ (∑ i ∈ Finset.range n, f i) := by
+  have hjm := Finset.mem_range.mpr hj
+  rcases h with h | h
+  · have h1 := Finset.single_le_sum h hjm
+    have h2 := h j hjm
+    unfold absQ
+    split_ifs <;> linarith
+  · have h1 := Finset.single_le_sum (f := fun i => - f i)
+      (fun i hi => by have := h i hi; linarith) hjm
+    rw [Finset.sum_neg_distrib] at h1
+    have h2 := h j hjm
+    unfold absQ
+    split_ifs <;> linarith
+
+/-- sign and size of the mass error of the repaired table, for any non-negative input:
+    `mass_j - p_j` are all `≥ 0` or all `≤ 0`, and they sum to `1 - Σp` -/
+theorem vose_mass_error_sign_and_sum (p : List Rat) (hne : p ≠ []) (hnn : ∀ x ∈ p, 0 ≤ x) :
+    ∑ j ∈ Finset.range p.length,
+      (aliasMass (voseBuildFixed p (1 / (p.length : Rat))).1
+        (voseBuildFixed p (1 / (p.length : Rat))).2 j - p.getD j 0) = 1 - p.sum ∧
+    ((∀ j, j < p.length → 0 ≤ aliasMass (voseBuildFixed p (1 / (p.length : Rat))).1
+        (voseBuildFixed p (1 / (p.length : Rat))).2 j - p.getD j 0) ∨
+     (∀ j, j < p.length → aliasMass (voseBuildFixed p (1 / (p.length : Rat))).1
+        (voseBuildFixed p (1 / (p.length : Rat))).2 j - p.getD j 0 ≤ 0)) := by
+  have hlen : 0 < p.length := List.length_pos_of_ne_nil hne
+  have hn0 : (p.length : Rat) ≠ 0 := by exact_mod_cast (Nat.pos_iff_ne_zero.mp hlen)
+  generalize havg : 1 / (p.length : Rat) = avg
+  have havg' : (p.length : Rat) * avg = 1 := by rw [← havg]; field_simp
+  obtain ⟨hn, hex⟩ := vf_loop_inv p p.length avg (2 * p.length + 1) (vf_init p avg)
+    (vf_init_inv p avg hnn) (by omega)
+  change vf_Inv p p.length avg (vf_exit p avg) at hn
+  change ¬ ((vf_exit p avg).small < p.length ∧ (vf_exit p avg).large < p.length) at hex
+  have hm := vf_mass_eq p avg hlen havg' hn
+  obtain ⟨hsumT, hsign⟩ := vf_exit_T p avg _ hn hex havg'
+  have herr : ∀ j, j < p.length →
+      aliasMass (voseBuildFixed p avg).1 (voseBuildFixed p avg).2 j - p.getD j 0 =
+        vf_T p.length avg (vf_exit p avg) j := by
+    intro j hj; rw [hm j hj]; ring
+  refine ⟨?_, ?_⟩
+  · rw [Finset.sum_congr rfl (fun j hj => herr j (Finset.mem_range.mp hj))]
+    exact hsumT
+  · rcases hsign with h | h
+    · left; intro j hj; rw [herr j hj]; exact h j (Finset.mem_range.mpr hj)
+    · right; intro j hj; rw [herr j hj]; exact h j (Finset.mem_range.mpr hj)
+
+theorem vose_correct_slack (p : List Rat) (hne : p ≠ []) (hnn : ∀ x ∈ p, 0 ≤ x) :
+    ∀ j, j < p.length →
+      absQ (aliasMass (voseBuildFixed p (1 / (p.length : Rat))).1
+        (voseBuildFixed p (1 / (p.length : Rat))).2 j - p.getD j 0) ≤ absQ (1 - p.sum) := by
+  intro j hj
+  obtain ⟨hs, hsign⟩ := vose_mass_error_sign_and_sum p hne hnn
+  rw [← hs]
+  apply vf_abs_single p.length (fun j => aliasMass (voseBuildFixed p (1 / (p.length : Rat))).1
+        (voseBuildFixed p (1 / (p.length : Rat))).2 j - p.getD j 0) j hj
+  rcases hsign with h | h
+  · exact Or.inl (fun i hi => h i (Finset.mem_range.mp hi))
+  · exact Or.inr (fun i hi => h i (Finset.mem_range.mp hi))
+
+theorem vf_absQ_sub_comm (a b : Rat) : absQ (a - b) = absQ (b - a) := by
+  unfold absQ
+  split_ifs <;> linarith
+
+theorem vose_correct_valid (p : List Rat) (hne : p ≠ []) (hp : isProb p = true) :
+    ∀ j, j < p.length →
+      absQ (aliasMass (voseBuildFixed p (1 / (p.length : Rat))).1
+        (voseBuildFixed p (1 / (p.length : Rat))).2 j - p.getD j 0) ≤
+        AITB.Gen.equalToleranceSmall := by
+  intro j hj
+  simp only [isProb, eqSmall, Bool.and_eq_true, List.all_eq_true, Bool.not_eq_true',
+    decide_eq_false_iff_not, not_lt, decide_eq_true_eq] at hp
+  have := vose_correct_slack p hne hp.1 j hj
+  rw [vf_absQ_sub_comm 1 p.sum] at this
+  exact le_trans this hp.2
+
+/-! ## (G) fuel adequacy: the fuel never cuts the modelled loops short -/
+
+/-- cursor bounds that make `(n - large) + (n - cp)` a termination measure -/
+def vf_J (n : Nat) (st : Vose) : Prop :=
+  st.large ≤ n ∧ st.cp ≤ n ∧ (st.small < n → st.cp < n)
+
+/-- one iteration of either loop (as it is / repaired), seen through the cursors only -/
+theorem vf_meas_step (n : Nat) (st st' : Vose) (hJ : vf_J n st)
+    (hs : st.small < n) (hL : st.large < n)
+    (h : (st'.small = st.large ∧ st'.cp = st.cp ∧
+            ∃ cond, st'.large = scanFrom cond n n (st.large + 1)) ∨
+         (st'.large = st.large ∧ st'.cp = st'.small ∧
+            ∃ cond, st'.small = scanFrom cond n n (st.cp + 1))) :
+    vf_J n st' ∧ (n - st'.large) + (n - st'.cp) < (n - st.large) + (n - st.cp) := by
+  obtain ⟨j1, j2, j3⟩ := hJ
+  have hcp := j3 hs
+  rcases h with ⟨a, b, cond, c⟩ | ⟨a, b, cond, c⟩
+  · obtain ⟨s1, s2, _, _⟩ := vf_scan cond n n (st.large + 1) (by omega)
+    rw [← c] at s1 s2
+    have := s2 (by omega)
+    exact ⟨⟨this, by omega, fun _ => by omega⟩, by omega⟩
+  · obtain ⟨s1, s2, _, _⟩ := vf_scan cond n n (st.cp + 1) (by omega)
+    rw [← c] at s1 s2
+    have := s2 (by omega)
+    exact ⟨⟨by omega, by omega, fun h => by omega⟩, by omega⟩
+
+theorem vf_cur_step_shape (n : Nat) (avg : Rat) (st : Vose) :
+    ((voseStep n avg st).small = st.large ∧ (voseStep n avg st).cp = st.cp ∧
+        ∃ cond, (voseStep n avg st).large = scanFrom cond n n (st.large + 1)) ∨
+    ((voseStep n avg st).large = st.large ∧ (voseStep n avg st).cp = (voseStep n avg st).small ∧
+        ∃ cond, (voseStep n avg st).small = scanFrom cond n n (st.cp + 1)) := by
+  unfold voseStep
+  simp only []
+  split
+  · exact Or.inl ⟨rfl, rfl, _, rfl⟩
+  · exact Or.inr ⟨rfl, rfl, _, rfl⟩
+
+theorem vf_fixed_step_shape (n : Nat) (avg : Rat) (st : Vose) :
+    ((voseStepFixed n avg st).small = st.large ∧ (voseStepFixed n avg st).cp = st.cp ∧
+        ∃ cond, (voseStepFixed n avg st).large = scanFrom cond n n (st.large + 1)) ∨
+    ((voseStepFixed n avg st).large = st.large ∧
+      (voseStepFixed n avg st).cp = (voseStepFixed n avg st).small ∧
+        ∃ cond, (voseStepFixed n avg st).small = scanFrom cond n n (st.cp + 1)) := by
+  unfold voseStepFixed
+  simp only []
+  split
+  · exact Or.inl ⟨rfl, rfl, _, rfl⟩
+  · exact Or.inr ⟨rfl, rfl, _, rfl⟩
+
+theorem vf_cur_loop_exits (n : Nat) (avg : Rat) : ∀ (fuel : Nat) (st : Vose),
+    vf_J n st → (n - st.large) + (n - st.cp) < fuel →
+    ¬ ((voseLoop n avg fuel st).small < n ∧ (voseLoop n avg fuel st).large < n)
+  | 0, st, _, h => by omega
+  | fuel + 1, st, hJ, h => by
+    simp only [voseLoop]
+    by_cases hc : (decide (st.small < n) && decide (st.large < n)) = true
+    · rw [if_pos hc]
+      have hc' : st.small < n ∧ st.large < n := by simpa using hc
+      obtain ⟨h1, h2⟩ := vf_meas_step n st _ hJ hc'.1 hc'.2 (vf_cur_step_shape n avg st)
+      exact vf_cur_loop_exits n avg fuel _ h1 (by omega)
+    · rw [if_neg hc]
+      simpa using hc
+
+theorem vf_fixed_loop_exits (n : Nat) (avg : Rat) : ∀ (fuel : Nat) (st : Vose),
+    vf_J n st → (n - st.large) + (n - st.cp) < fuel →
+    ¬ ((voseLoopFixed n avg fuel st).small < n ∧ (voseLoopFixed n avg fuel st).large < n)
+  | 0, st, _, h => by omega
+  | fuel + 1, st, hJ, h => by
+    simp only [voseLoopFixed]
+    by_cases hc : (decide (st.small < n) && decide (st.large < n)) = true
+    · rw [if_pos hc]
+      have hc' : st.small < n ∧ st.large < n := by simpa using hc
+      obtain ⟨h1, h2⟩ := vf_meas_step n st _ hJ hc'.1 hc'.2 (vf_fixed_step_shape n avg st)
+      exact vf_fixed_loop_exits n avg fuel _ h1 (by omega)
+    · rw [if_neg hc]
+      simpa using hc
+
+theorem vf_J_init (n : Nat) (c1 c2 : Nat → Bool) (prob : List Rat) (als : List Nat) :
+    vf_J n ⟨prob, als, scanFrom c1 n n 0, scanFrom c2 n n 0, scanFrom c1 n n 0⟩ := by
+  obtain ⟨_, a2, _, _⟩ := vf_scan c1 n n 0 (by omega)
+  obtain ⟨_, b2, _, _⟩ := vf_scan c2 n n 0 (by omega)
+  exact ⟨b2 (Nat.zero_le _), a2 (Nat.zero_le _), id⟩
+
+/-- the main loop of the constructor as it is always runs to its exit condition
+    (`vf_exit_cur p avg` is the loop state used by `voseBuild`, see `vf_build_cur_eq`) -/
+theorem vose_current_loop_exits (p : List Rat) (avg : Rat) :
+    ¬ ((vf_exit_cur p avg).small < p.length ∧ (vf_exit_cur p avg).large < p.length) := by
+  have hJ := vf_J_init p.length (fun i => p.getD i 0 ≥ avg) (fun i => p.getD i 0 < avg) p
+    (List.replicate p.length 0)
+  exact vf_cur_loop_exits p.length avg (2 * p.length + 1) _ hJ (by
+    show (p.length - scanFrom _ p.length p.length 0) + (p.length - scanFrom _ p.length p.length 0)
+      < 2 * p.length + 1
+    omega)
+
+/-- same for the repaired loop (`vf_exit p avg` is the loop state used by `voseBuildFixed`,
+    see `vf_build_eq`); no hypothesis on `p` or `avg` -/
+theorem vose_fixed_loop_exits (p : List Rat) (avg : Rat) :
+    ¬ ((vf_exit p avg).small < p.length ∧ (vf_exit p avg).large < p.length) := by
+  have hJ := vf_J_init p.length (fun i => p.getD i 0 ≥ avg) (fun i => p.getD i 0 < avg) p
+    (List.replicate p.length p.length)
+  exact vf_fixed_loop_exits p.length avg (2 * p.length + 1) _ hJ (by
+    show (p.length - scanFrom _ p.length p.length 0) + (p.length - scanFrom _ p.length p.length 0)
+      < 2 * p.length + 1
+    omega)
+
+theorem vf_sweep_fuel (n : Nat) : ∀ (fuel x : Nat) (prob : List Rat) (als : List Nat) (k : Nat),
+    n + 1 - x ≤ fuel → voseSweep n (fuel + k) x prob als = voseSweep n fuel x prob als
+  | 0, x, prob, als, k, h => by
+    cases k with
+    | zero => rfl
+    | succ k =>
+      simp only [voseSweep]
+      rw [if_neg (by omega)]
+  | fuel + 1, x, prob, als, k, h => by
+    rw [Nat.add_right_comm]
+    simp only [voseSweep]
+    by_cases hx : x < n
+    · rw [if_pos hx, if_pos hx]
+      apply vf_sweep_fuel n fuel
+      obtain ⟨s1, _, _, _⟩ := vf_scan (fun i => (als.set x x).getD i 0 != 0) n n (x + 1) (by omega)
+      omega
+    · rw [if_neg hx, if_neg hx]
+
+/-- extra fuel changes nothing in the final sweep; `voseBuild` passes `n + 1 ≥ n + 1 - x` -/
+theorem vose_current_sweep_fuel (n x : Nat) (prob : List Rat) (als : List Nat) (k : Nat) :
+    voseSweep n (n + 1 - x + k) x prob als = voseSweep n (n + 1 - x) x prob als :=
+  vf_sweep_fuel n (n + 1 - x) x prob als k (le_refl _)
+
 end AITB.Sampling
